@@ -870,7 +870,7 @@ def image_item(draw, idx, recipe, slot=None):
         h = rnd.choice([b"Im%d" % idx, b"pic", _word(rnd, 1, 3)])
         # (now and then more numbered names are taken than any fixed number of attempts would try)
         names = [h.decode() + ext] + [h.decode() + ".%d%s" % (k, ext)
-                                      for k in range(rnd.choice([0, 1, 2, 3, 4, 1005 if rnd.random() < 0.15 else 2]))]
+                                      for k in range(1005 if rnd.random() < 0.08 else rnd.choice([0, 1, 2, 3, 4, 2]))]
         if len(names) >= 4 and len(names) < 100 and rnd.random() < 0.5:
             # a gap in the numbered names (a file of an earlier run was deleted): the next free name is inside the gap,
             # the names after it are still taken
